@@ -50,8 +50,8 @@ def gen(tape: Tape, tier: str) -> dict:
         dtypes=("f8", "f8", "i8", "i4", "f4"),
         label_kinds=("int", "int", "float"),
         nan_p_choices=(0.0, 0.2, 0.5),
-        max_n=24,
-        max_groups=4,
+        max_n=36 if tier == "thorough" else 24,
+        max_groups=6 if tier == "thorough" else 4,
         max_ndim=2,
         by_dask_p=0.1,
         expected_modes=("none", "none", "exact"),
